@@ -57,3 +57,6 @@ impl<T> RangeSet<T> {
             .is_ok()
     }
 }
+
+#[cfg(kani)]
+pub(crate) mod verif_kani;
